@@ -3,7 +3,8 @@
 Every generated program is run under K seeded permutations of its statements (facts, rules, ADs, queries, evidence) and of
 its rule bodies (negative literals stay after the positive literals that bind their variables); every permuted run is
 compared with the Lean specification `Sem` of the UNPERMUTED program. Lean theorems: the specification is invariant
-under permutation of the ground rules / body atoms (least model does not depend on clause order)."""
+under permutation of the ground rules / body atoms (least model does not depend on clause order); first-order level
+(C07FO): permuting statements / body literals, renaming variables leaves `SemFO.run` unchanged."""
 import random
 
 import cfgprop
@@ -22,6 +23,17 @@ THEOREMS = [
     "ProbLogProofs.C07.C07_perm_groups_run",
     "ProbLogProofs.C07.C07_perm_evidence_run",
     "ProbLogProofs.C07.C07_perm_queries_run",
+]
+
+# first-order level: permuting the statements / renaming the variables of a statement does not change `SemFO.run`
+MODULE_FO = "ProbLogProofs.Properties.C07FO"
+THEOREMS_FO = [
+    "ProbLogProofs.C07FO.C07FO_run_rename_choices",
+    "ProbLogProofs.C07FO.C07FO_stmt_perm",
+    "ProbLogProofs.C07FO.C07FO_stmt_perm_run",
+    "ProbLogProofs.C07FO.C07FO_var_rename",
+    "ProbLogProofs.C07FO.C07FO_body_perm",
+    "ProbLogProofs.C07FO.C07FO_body_perm_run",
 ]
 
 MANIFEST = {
@@ -88,6 +100,7 @@ def run(ctx):
     ctx.rule = ("generated programs x seeded permutations of statements / bodies / query and evidence order; a case = one "
                 "program with its permutation seed; non-trivial = at least one query instance and more than one world")
     return cfgprop.run(ctx, MODULE, THEOREMS, variants, nq=50, nt=500, level="other", gen_kwargs={"disjunction": True},
+                       extra_modules=[(MODULE_FO, THEOREMS_FO)],
                        explanation="Specification-level permutation invariance is proved in Lean (see obligation list); "
                                    "the engine is compared with the specification on every permuted run (exploration of the "
                                    "order quantifier, not a proof about the engine).")
